@@ -17,6 +17,7 @@ type ExprGen struct {
 	HashKeys map[string]string
 	// Callbacks enables calls of registered functions/filters/tests.
 	Callbacks bool
+	PatVar    string // a string variable holding a valid pattern ("" = patterns are literals only)
 	noCB      int // >0 while generating the right operand of and/or
 	inInterp  int // >0 while generating an interpolated part (no nested double-quoted strings)
 }
@@ -202,6 +203,9 @@ func (g *ExprGen) Gen(t Type, depth int) Expr {
 			ops := []string{"starts with", "ends with"}
 			return &EBin{ops[r.Intn(2)], g.Gen(TStr, d), g.Gen(TStr, 0)}
 		case 9:
+			if g.PatVar != "" && g.R.Intn(3) == 0 {
+				return &EBin{"matches", g.Gen(TStr, d), &EName{g.PatVar}}
+			}
 			return &EBin{"matches", g.Gen(TStr, d), &EStr{g.pick(patLits)}}
 		case 10:
 			if g.cb() {
@@ -308,14 +312,18 @@ func (g *ExprGen) leaf(t Type) Expr {
 // StdContext returns the standard context (Go values for the library) and the
 // variable lists describing it.
 func StdContext(g *ExprGen) map[string]interface{} {
-	g.NumVars = []string{"n1", "n2", "n3", "n4"}
-	g.StrVars = []string{"s1", "s2", "s3"}
-	g.BoolVars = []string{"t", "f"}
+	// some names begin with an operator word: they are still names
+	g.NumVars = []string{"n1", "n2", "n3", "n4", "not1", "in2"}
+	g.StrVars = []string{"s1", "s2", "s3", "or3", "is4"}
+	g.BoolVars = []string{"t", "f", "and5"}
 	g.ArrVars = []string{"arr1", "arr2"}
 	g.HashVars = []string{"h1"}
 	g.ArrLens = map[string]int{"arr1": 3, "arr2": 0}
 	g.HashKeys = map[string]string{"h1": "k"}
+	g.PatVar = "pat"
 	return map[string]interface{}{
+		"pat": "^a",
+		"not1": 4, "in2": uint8(2), "or3": "b", "is4": "Hello", "and5": true,
 		"n1": 3, "n2": 0.5, "n3": int64(10), "n4": float32(7),
 		"s1": "abc", "s2": "", "s3": "12",
 		"t": true, "f": false,
